@@ -499,10 +499,11 @@ LIST_FORMS = ("list", "tuple", "list-of-numpy-scalars", "list-of-0d-arrays", "ne
 # Their list forms are driven by the workload `packaging-open-findings`, which
 # has a budget of 0 until the repair lands (replays of its cases run
 # regardless); then set SEQUENCE_ONLY = {} and give it a budget.
-SEQUENCE_ONLY = {"Polygon.regular_polygon(angle)": NDARRAY_FORMS,
-                 "hyperbolic.regular_polygon_radius": NDARRAY_FORMS,
-                 "hyperbolic.hyp_to_affine_dist": NDARRAY_FORMS,
-                 "TangentVector.point_along": NDARRAY_FORMS}
+# (repaired in the repository as F50, 7921f15: the list forms are now part of the
+# ordinary sequence workload AND keep their own workload, with a budget)
+FORMER_SEQUENCE_ONLY = ("Polygon.regular_polygon(angle)", "hyperbolic.regular_polygon_radius",
+                        "hyperbolic.hyp_to_affine_dist", "TangentVector.point_along")
+SEQUENCE_ONLY = {}
 
 
 def wl_packaging_sequence(run, rng, idx):
@@ -511,7 +512,8 @@ def wl_packaging_sequence(run, rng, idx):
 
 def wl_packaging_open_findings(run, rng, idx):
     """the list / tuple forms of the entry points of SEQUENCE_ONLY."""
-    _packaging_sequence(run, rng, idx, {e: LIST_FORMS for e in SEQUENCE_ONLY}, set(SEQUENCE_ONLY))
+    _packaging_sequence(run, rng, idx, {e: LIST_FORMS for e in FORMER_SEQUENCE_ONLY},
+                        set(FORMER_SEQUENCE_ONLY))
 
 
 def _packaging_sequence(run, rng, idx, only_map, entries):
@@ -1879,7 +1881,7 @@ WORKLOADS = [
     Workload("packaging-coxeter", wl_packaging_coxeter, quick=8, thorough=64),
     Workload("packaging-integer-data", wl_packaging_integer_data, quick=25, thorough=250),
     Workload("packaging-sequence", wl_packaging_sequence, quick=24, thorough=360),
-    Workload("packaging-open-findings", wl_packaging_open_findings, quick=0, thorough=0),
+    Workload("packaging-open-findings", wl_packaging_open_findings, quick=8, thorough=160),
     Workload("rescaling", wl_rescaling, quick=240, thorough=6000),
     Workload("rescaling-ideal", wl_rescaling_ideal, quick=90, thorough=1800),
     Workload("rescaling-objects", wl_rescaling_objects, quick=160, thorough=3200),
